@@ -195,11 +195,11 @@ theorem fileSize_symlink (n : FSNode) (ht : n.type = 4) : fileSize n = dataLen n
 
 theorem wf_setModeFromUnix (n : FSNode) (u : BitVec 32) (h : Wf n) : Wf (setModeFromUnix n u) := by
   unfold setModeFromUnix; simp only []
-  split <;> exact ⟨h.type, h.filesize, h.blocks, h.hashType, h.fanout, h.secs, h.nanos⟩
+  split <;> exact ⟨h.type, h.filesize, h.blocks, h.hashType, h.fanout, h.secs, h.nanos, h.unk⟩
 
 theorem wf_setExtendedMode (n : FSNode) (x : BitVec 32) (h : Wf n) : Wf (setExtendedMode n x) := by
   unfold setExtendedMode; simp only []
-  split <;> exact ⟨h.type, h.filesize, h.blocks, h.hashType, h.fanout, h.secs, h.nanos⟩
+  split <;> exact ⟨h.type, h.filesize, h.blocks, h.hashType, h.fanout, h.secs, h.nanos, h.unk⟩
 
 theorem wf_mtimeOf (t : Time) (hv : t.valid) :
     (-(2 ^ 63 : Int) ≤ (mtimeOf t).seconds ∧ (mtimeOf t).seconds < 2 ^ 63) ∧
@@ -217,8 +217,8 @@ theorem wf_setModTime (n : FSNode) (t : Time) (hv : t.valid) (h : Wf n) : Wf (se
   have hm := wf_mtimeOf t hv
   unfold setModTime
   split
-  · exact ⟨h.type, h.filesize, h.blocks, h.hashType, h.fanout, by simp, by simp⟩
-  · refine ⟨h.type, h.filesize, h.blocks, h.hashType, h.fanout, ?_, ?_⟩
+  · exact ⟨h.type, h.filesize, h.blocks, h.hashType, h.fanout, by simp, by simp, h.unk⟩
+  · refine ⟨h.type, h.filesize, h.blocks, h.hashType, h.fanout, ?_, ?_, h.unk⟩
     · intro m hmm; simp at hmm; subst hmm; exact hm.1
     · intro m v hmm hvv; simp at hmm; subst hmm; exact hm.2 v hvv
 
@@ -232,13 +232,13 @@ theorem updateFilesize_lt (n : FSNode) (d : Int) : ∀ v, (updateFilesize n d).f
 theorem wf_new (t : Nat) (ht : t < 2 ^ 32) : Wf (newFSNode t) :=
   ⟨ht, updateFilesize_lt _ _, by simp [newFSNode, updateFilesize], by simp [newFSNode, updateFilesize],
     by simp [newFSNode, updateFilesize], by simp [newFSNode, updateFilesize],
-    by simp [newFSNode, updateFilesize]⟩
+    by simp [newFSNode, updateFilesize], unk_nil⟩
 
 theorem wf_setData (n : FSNode) (d : Option Bytes) (h : Wf n) : Wf (setData n d) :=
-  ⟨h.type, updateFilesize_lt _ _, h.blocks, h.hashType, h.fanout, h.secs, h.nanos⟩
+  ⟨h.type, updateFilesize_lt _ _, h.blocks, h.hashType, h.fanout, h.secs, h.nanos, h.unk⟩
 
 theorem wf_addBlockSize (n : FSNode) (s : Nat) (hs : s < 2 ^ 64) (h : Wf n) : Wf (addBlockSize n s) := by
-  refine ⟨h.type, updateFilesize_lt _ _, ?_, h.hashType, h.fanout, h.secs, h.nanos⟩
+  refine ⟨h.type, updateFilesize_lt _ _, ?_, h.hashType, h.fanout, h.secs, h.nanos, h.unk⟩
   intro v hv
   simp only [addBlockSize, updateFilesize, List.mem_append, List.mem_singleton] at hv
   rcases hv with hv | rfl
@@ -246,13 +246,13 @@ theorem wf_addBlockSize (n : FSNode) (s : Nat) (hs : s < 2 ^ 64) (h : Wf n) : Wf
   · exact hs
 
 theorem wf_removeBlockSize (n : FSNode) (i : Nat) (h : Wf n) : Wf (removeBlockSize n i) := by
-  refine ⟨h.type, updateFilesize_lt _ _, ?_, h.hashType, h.fanout, h.secs, h.nanos⟩
+  refine ⟨h.type, updateFilesize_lt _ _, ?_, h.hashType, h.fanout, h.secs, h.nanos, h.unk⟩
   intro v hv
   simp only [removeBlockSize, updateFilesize] at hv
   exact h.blocks v (List.mem_of_mem_eraseIdx hv)
 
 theorem wf_removeAll (n : FSNode) (hd : dataLen n < 2 ^ 64) (h : Wf n) : Wf (removeAllBlockSizes n) := by
-  refine ⟨h.type, ?_, by simp [removeAllBlockSizes], h.hashType, h.fanout, h.secs, h.nanos⟩
+  refine ⟨h.type, ?_, by simp [removeAllBlockSizes], h.hashType, h.fanout, h.secs, h.nanos, h.unk⟩
   intro v hv
   simp only [removeAllBlockSizes] at hv
   have : dataLen n = v := Option.some.inj hv
@@ -330,10 +330,10 @@ theorem wf_addStat (n : FSNode) (mode : BitVec 32) (t : Time) (hv : t.valid) (h 
   unfold addStat
   simp only []
   split
-  · split <;> exact ⟨h.type, h.filesize, h.blocks, h.hashType, h.fanout, h.secs, h.nanos⟩
+  · split <;> exact ⟨h.type, h.filesize, h.blocks, h.hashType, h.fanout, h.secs, h.nanos, h.unk⟩
   · split
     all_goals
-      refine ⟨h.type, h.filesize, h.blocks, h.hashType, h.fanout, ?_, ?_⟩
+      refine ⟨h.type, h.filesize, h.blocks, h.hashType, h.fanout, ?_, ?_, h.unk⟩
       · intro m hmm; simp at hmm; subst hmm; exact hm.1
       · intro m v hmm hvv; simp at hmm; subst hmm; exact hm.2 v hvv
 
